@@ -62,14 +62,15 @@ def h264_delta(rng, n=None, sc=None):
     return b"".join(sc() + bytes([0x41]) + nal_body(rng, n if n is not None else rng.randrange(1, 60)) for _ in range(k))
 
 
-def h265_key(rng, sc=None):
+def h265_key(rng, sc=None, irap=None):
     sc = sc or (lambda: rng.choice([SC3, SC4]))
     short = rng.random() < 0.06           # parameter sets that consist of little more than their 2-byte header
     vps = bytes([0x40, 0x01]) + nal_body(rng, rng.randrange(0, 2) if short else rng.randrange(2, 8))
     sps = bytes([0x42, 0x01]) + nal_body(rng, rng.randrange(0, 2) if short else rng.randrange(2, 20))
     pps = bytes([0x44, 0x01]) + nal_body(rng, rng.randrange(0, 2) if short else rng.randrange(1, 5))
     # the random-access picture: IDR_W_RADL mostly, now and then any other IRAP type (BLA 16-18, IDR_N_LP 20, CRA 21)
-    irap = 19 if rng.random() < 0.6 else rng.choice([16, 17, 18, 20, 21, 21])
+    if irap is None:
+        irap = 19 if rng.random() < 0.6 else rng.choice([16, 17, 18, 20, 21, 21])
     idr = bytes([irap << 1, 0x01]) + nal_body(rng, rng.randrange(1, 40))
     return b"".join(sc() + p for p in [vps, sps, pps, idr])
 
@@ -1793,7 +1794,10 @@ def gen_C17(rng, tier, dist):
         smp = rng.choice([960, 1024])
         nv = rng.randrange(1, 8)
         na = rng.randrange(0, 6) if audio != "none" else 0
-        frames = [key_frame(rng, codec)] + [delta_frame(rng, codec) if codec == "av1" or rng.random() < 0.8 else key_frame(rng, codec) for _ in range(nv - 1)]
+        # every call of a pair must be accepted on both paths: the key frames are ones encode_video's own detection
+        # recognises (H.265: IDR; BLA/CRA frames are key frames only when the caller says so)
+        kf = (lambda: annexb_tail(rng, codec, h265_key(rng, irap=rng.choice([19, 20, 21])))) if codec == "h265" else (lambda: key_frame(rng, codec))
+        frames = [kf()] + [delta_frame(rng, codec) if codec == "av1" or rng.random() < 0.8 else kf() for _ in range(nv - 1)]
         aframes = [audio_frame(rng, audio) for _ in range(na)]
         ev = ["ev %s %d" % (hx(f), ms) for f in frames] + ["ea %s %d" % (hx(f), smp) for f in aframes] + ["fins"]
         t = 0.0
